@@ -6,7 +6,8 @@ import pathspec
 import impl, oracle
 from impl import cminx
 
-NAMES = ['a', 'b', 'c', 'mod', 'x.y', 'd-e', 'aa', 'ab', 'ac', 'e1', 'e2', 'e3', 'Z', 'útf', 'tc.cmake.in', 'P.cmake', 'v1.2.x', '.hid']
+NAMES = ['a', 'b', 'c', 'mod', 'x.y', 'd-e', 'aa', 'ab', 'ac', 'e1', 'e2', 'e3', 'Z', 'útf', 'tc.cmake.in', 'P.cmake', 'v1.2.x', '.hid',
+         'A', 'Mod', 'B', 'sub\\a', 'deep\\mod', 're\u0301sume\u0301', '模块', 'ｗｉｄｅ', 'x\u0308y']      # case twins, backslashes, combining marks, wide characters
 EXTS = ['.cmake', '.cmake', '.cmake', '.cmake', '.CMake', '.CMAKE', '.txt', '', '.cmake.in', '.cmake~']
 DIRS = ['sub', 'deep', 'aa', 'ab', 'ac', 'build', 'x.d', 'cmake', 'T-1', 'tmpl.cmake', '.dot']
 PATTERNS = ['a*/', '*.cmake/', 'mod*/', 'e?/', 'aa/', 'ab/', 'ac/', 'build', 'sub/', '*.txt', 'a.cmake', 'b.cmake', 'c.cmake', '**/deep/*.cmake', 'mod.*', 'x.d/',
@@ -17,6 +18,12 @@ PATTERNS = ['a*/', '*.cmake/', 'mod*/', 'e?/', 'aa/', 'ab/', 'ac/', 'build', 'su
 def file_content(g, name):
     ident = re.sub(r'\W', '_', name)
     k = g.random()
+    if k < 0.08:      # characters that str.splitlines() treats as line boundaries although CMake and the aggregator do not
+        return '#[[[\n# page\x0cbreak and v\x0btab, ls\u2028ps\u2029 nel\x85 fs\x1c here\n#]]\nfunction(f_%s a)\nendfunction()\n' % ident
+    if k < 0.14:      # titles whose display width differs from their length
+        return '#[[[ @module named.%s%s\n# module text\n#]]\nfunction(f_%s)\nendfunction()\n' % (g.choice(['模块名称', 're\u0301sume\u0301', 'ｆｕｌｌ', 'a\u0308\u0308b']), name, ident)
+    if k < 0.2:       # keyword arguments: rendering appends **kwargs to the entry's own parameter list
+        return '#[[[\n# Fetch. %s\n#]]\nfunction(fetch_%s url dest)\n  cmake_parse_arguments(_f "" "" "X" ${ARGN})\nendfunction()\n' % (name, ident)
     if k < 0.55: return 'function(f_%s a)\nendfunction()\n' % ident
     if k < 0.7: return '#[[[\n# Doc of %s ✓\n#]]\nfunction(f_%s a b)\nendfunction()\nset(V_%s 1)\n' % (name, ident, ident)
     if k < 0.76:      # any blanks between the opener and the tag
@@ -32,9 +39,19 @@ def file_content(g, name):
 def gen_dir(g, depth, max_depth=3, want_cmake=False):
     children = []; used = set()
     for _ in range(g.randint(0, 4)):
-        f = g.choice(NAMES) + g.choice(EXTS)
-        if f.lower() in used: continue
-        used.add(f.lower()); children.append(dict(name=f, content=file_content(g, f)))
+        nm = g.choice(NAMES); ext = g.choice(EXTS); f = nm + ext
+        key = nm + ext.lower()          # same stem + differently spelled extension = K4 (both write <stem>.rst); case twins of the stem are fine
+        if key in used or f in used: continue
+        used.add(key); used.add(f); children.append(dict(name=f, content=file_content(g, f)))
+    if depth == 0 and g.random() < 0.3:
+        # 8: a byte-identical copy of one file in another directory (a vendored copy): the second copy must get the page it gets alone
+        src_files = [c for c in children if 'children' not in c and c['name'].lower().endswith('.cmake')]
+        if src_files:
+            c0 = g.choice(src_files)
+            twin = dict(name=c0['name'], content=c0['content'])
+            dn = g.choice(['vendor', 'compat', 'Zcopy'])
+            if dn not in used and dn.lower() not in {u.lower() for u in used}:
+                used.add(dn); children.append(dict(name=dn, children=[twin, dict(name='other.cmake', content=c0['content'])]))
     if g.random() < 0.05 and 'cmake' not in used:
         used.add('cmake'); children.append(dict(name='cmake', content='set(x 1)\n'))
     if want_cmake and not any(c['name'].endswith('.cmake') for c in children):
@@ -42,8 +59,8 @@ def gen_dir(g, depth, max_depth=3, want_cmake=False):
     if depth < max_depth:
         for _ in range(g.randint(0, 3)):
             n = g.choice(DIRS)
-            if n.lower() in used: continue
-            used.add(n.lower()); children.append(dict(name=n, children=gen_dir(g, depth + 1, max_depth)))
+            if n in used or n.lower() in {u.lower() for u in used}: continue
+            used.add(n); children.append(dict(name=n, children=gen_dir(g, depth + 1, max_depth)))
     g.shuffle(children)
     return children
 
